@@ -546,13 +546,18 @@ ASSUMPTIONS = [
 
 
 def families_for(tier, rnd):
+    """(name, mode, nodes, max edges, fail kinds, dangling nodes, max branches)"""
     if tier == "quick":
-        return [("dag3", "dag", 3, 9, ("err", "panic"), False), ("pregel3", "pregel", 3, 9, ("err",), False),
-                ("wf3", "wf", 3, 9, ("err", "panic"), True), ("pregel4", "pregel", 4, 14, (), False),
-                ("dag4", "dag", 4, 14, (), False), ("wf4", "wf", 4, 14, (), True)]
-    return [("dag3", "dag", 3, 9, ("err", "panic"), False), ("pregel3", "pregel", 3, 9, ("err", "panic"), False),
-            ("wf3", "wf", 3, 9, ("err", "panic"), True), ("pregel4", "pregel", 4, 14, ("err",), False),
-            ("dag4", "dag", 4, 14, ("err",), False), ("wf4", "wf", 4, 14, ("panic",), True)]
+        return [("dag3", "dag", 3, 9, ("err", "panic"), False, 0), ("pregel3", "pregel", 3, 9, ("err",), False, 0),
+                ("wf3", "wf", 3, 9, ("err", "panic"), True, 0), ("pregel4", "pregel", 4, 14, (), False, 0),
+                ("dag4", "dag", 4, 14, (), False, 0), ("wf4", "wf", 4, 14, (), True, 0),
+                ("dag3b", "dag", 3, 5, (), False, 1), ("wf3b", "wf", 3, 5, (), True, 1)]
+    return [("dag3", "dag", 3, 9, ("err", "panic"), False, 0), ("pregel3", "pregel", 3, 9, ("err", "panic"), False, 0),
+            ("wf3", "wf", 3, 9, ("err", "panic"), True, 0), ("pregel4", "pregel", 4, 14, ("err",), False, 0),
+            ("dag4", "dag", 4, 14, ("err",), False, 0), ("wf4", "wf", 4, 14, ("panic",), True, 0),
+            ("dag3b", "dag", 3, 9, ("err",), False, 1), ("wf3b", "wf", 3, 9, ("err",), True, 1),
+            ("dag3bb", "dag", 3, 6, (), False, 2), ("wf3bb", "wf", 3, 6, (), True, 2),
+            ("dag4b", "dag", 4, 6, (), False, 1), ("wf4b", "wf", 4, 6, (), True, 1)]
 
 
 def c03(tier, repo=None):
@@ -573,9 +578,12 @@ def c03(tier, repo=None):
         # all 3-node graphs (and the layered 4-node pregel graphs) with all their orders; a seeded slice of the 4-node universe
         small = [g for g in graphs if g["fam"] in ("dag3", "pregel3", "wf3", "pregel4")]
         big = [g for g in graphs if g["fam"] in ("dag4", "wf4")]
+        br = [g for g in graphs if g["fam"] in ("dag3b", "wf3b") and g["branches"]]
         rnd.shuffle(big)
-        graphs = small + big[:160]
+        rnd.shuffle(br)
+        graphs = small + big[:160] + br[:300]
         exhaustive = False
+    graphs = [g for g in graphs if g["branches"] or not g["fam"].endswith("b")]      # branch families also grow the branch-free graphs again
     ocases = order_cases(graphs)
     scheds, sched_stats = gen_schedules(tier)
     hcases = hook_cases(tier, graphs, rnd) + sched_cases(tier, scheds, rnd)
